@@ -1276,12 +1276,16 @@ class _NameWildcardTransformer(ast.NodeTransformer):
         new_keywords = [self.visit(child) for child in node.keywords]
         new_decorators = [self.visit(child) for child in node.decorator_list]
         new_body = [self.visit(child) for child in node.body]
+        kwargs = {}
+        if getattr(node, "type_params", None):  # class A[T]: ..., python 3.12+
+            kwargs["type_params"] = [self.visit(child) for child in node.type_params]
         new_node = ast.ClassDef(
             name=new_name,
             bases=new_bases,
             keywords=new_keywords,
             decorator_list=new_decorators,
             body=new_body,
+            **kwargs,
         )
         return ast.copy_location(new_node, node)
 
@@ -1291,12 +1295,16 @@ class _NameWildcardTransformer(ast.NodeTransformer):
         new_body = [self.visit(child) for child in node.body]
         new_decorator_list = [self.visit(child) for child in node.decorator_list]
         new_returns = self.visit(node.returns)
+        kwargs = {}
+        if getattr(node, "type_params", None):  # def f[T](x): ..., python 3.12+
+            kwargs["type_params"] = [self.visit(child) for child in node.type_params]
         new_node = ast.FunctionDef(
             name=new_name,
             args=new_args,
             body=new_body,
             decorator_list=new_decorator_list,
             returns=new_returns,
+            **kwargs,
         )
         return ast.copy_location(new_node, node)
 
@@ -1306,12 +1314,16 @@ class _NameWildcardTransformer(ast.NodeTransformer):
         new_body = [self.visit(child) for child in node.body]
         new_decorator_list = [self.visit(child) for child in node.decorator_list]
         new_returns = self.visit(node.returns)
+        kwargs = {}
+        if getattr(node, "type_params", None):  # def f[T](x): ..., python 3.12+
+            kwargs["type_params"] = [self.visit(child) for child in node.type_params]
         new_node = ast.AsyncFunctionDef(
             name=new_name,
             args=new_args,
             body=new_body,
             decorator_list=new_decorator_list,
             returns=new_returns,
+            **kwargs,
         )
         return ast.copy_location(new_node, node)
 
